@@ -278,12 +278,69 @@ def r11f(ctx):
         ctx.report("R11f", x, x.node, f"flat XML parts {parts}", "the flat XML export does not include meta, settings, styles and content")
 
 
+def r11g(ctx):
+    """Derived (indented) bytes never become the only in-memory source of a part.
+
+    A pretty save stores indented bytes in the container's part table.  That is harmless as
+    long as the document keeps the parsed tree the bytes were derived from in its cache of
+    parsed parts: later reads and saves are served from the tree.  If the tree is not
+    cached, the next access parses the indented bytes, and the document in memory has
+    changed by saving.  Rule: in Document.save, the receiver X of every
+    `container.set_part(p, X.pretty_serialize())` is an entry of the parsed-part cache — the
+    value of a loop over its items, or a value stored into the cache under the same key
+    before (or in the same statement as) the call.
+    """
+    repo = ctx.repo
+    ctx.rule("R11g", "indented bytes are stored in the container only for parts whose parsed tree stays in the document's cache", floor=2)
+    f = repo.func("Document.save")
+    cfg = cfg_of(f)
+
+    def is_cache(e):
+        return isinstance(e, ast.Attribute) and e.attr.endswith("__xmlparts") and isinstance(e.value, ast.Name) and e.value.id == "self"
+
+    sets = [c for c in walk_no_nested(f.node) if isinstance(c, ast.Call) and call_name(c) == "set_part" and len(c.args) == 2
+            and any(isinstance(x, ast.Call) and call_name(x) == "pretty_serialize" for x in ast.walk(c.args[1]))]
+    if not sets:
+        raise AnalysisError("R11g: Document.save no longer stores pretty-serialised parts into the container")
+    for c in sets:
+        ser = [x for x in ast.walk(c.args[1]) if isinstance(x, ast.Call) and call_name(x) == "pretty_serialize"][0]
+        recv = ser.func.value if isinstance(ser.func, ast.Attribute) else None
+        key = ast.unparse(c.args[0])
+        ok, how = False, "receiver not recognised"
+        if isinstance(recv, ast.Name):
+            cn = node_of(cfg, c)
+            # (a) value of a loop over the cache's items
+            for lp in [n for n in walk_no_nested(f.node) if isinstance(n, ast.For) and c in list(ast.walk(n))]:
+                it = lp.iter
+                if isinstance(it, ast.Call) and isinstance(it.func, ast.Attribute) and it.func.attr in ("items", "values") and is_cache(it.func.value) \
+                        and any(isinstance(t, ast.Name) and t.id == recv.id for t in ast.walk(lp.target)):
+                    ok, how = True, "value of the loop over the parsed-part cache"
+            # (b) stored into the cache under the same key on every path to the call
+            if not ok:
+                stores = [a for a in walk_no_nested(f.node) if isinstance(a, ast.Assign) and any(
+                    isinstance(t, ast.Subscript) and is_cache(t.value) and ast.unparse(t.slice) == key for t in a.targets) and (
+                    any(isinstance(t, ast.Name) and t.id == recv.id for t in a.targets) or (isinstance(a.value, ast.Name) and a.value.id == recv.id))]
+                dom = [a for a in stores if cfg.dominates(node_of(cfg, a), cn)]
+                if dom:
+                    ok, how = True, f"stored into the cache first: {norm(dom[0], 50)}"
+                else:
+                    how = f"`{recv.id}` is parsed for this save only and not kept in the cache of parsed parts"
+        elif isinstance(recv, ast.Subscript) and is_cache(recv.value):
+            ok, how = True, "read from the parsed-part cache"
+        ctx.instance("R11g", f"{f.file}:{f.ident}", f"{norm(c, 60)}: {how}", ok=ok, nontrivial=True, line=c.lineno)
+        if not ok:
+            ctx.report("R11g", f, c, f"{norm(c, 60)}: {how}",
+                       "Document.save replaces a part's bytes in the container by their indented form while the parsed tree they came from is dropped: the next access "
+                       "parses the indented bytes, so the document in memory is no longer the one that was saved (and the next save writes yet another content)")
+
+
 def run(ctx):
     r11a(ctx)
     r11b(ctx)
     r11c(ctx)
     r11de(ctx)
     r11f(ctx)
+    r11g(ctx)
 
 
 from ..selftest import Seed, unparse_seed  # noqa: E402
@@ -292,6 +349,15 @@ _CT = "src/odfdo/container.py"
 _XP = "src/odfdo/xmlpart.py"
 _DOC = "src/odfdo/document.py"
 SEEDS = [
+    Seed("pretty save parses a part for this save only", "fault", _DOC,
+         "                self.__xmlparts[path] = part = cls(path, container)\n                container.set_part(path, part.pretty_serialize())",
+         "                part = cls(path, container)\n                container.set_part(path, part.pretty_serialize())", "R11g"),
+    Seed("pretty save caches the part after the bytes were replaced only on one branch", "fault", _DOC,
+         "                self.__xmlparts[path] = part = cls(path, container)\n                container.set_part(path, part.pretty_serialize())",
+         "                part = cls(path, container)\n                if path == ODF_CONTENT:\n                    self.__xmlparts[path] = part\n                container.set_part(path, part.pretty_serialize())", "R11g"),
+    Seed("pretty save caches the part in its own statement", "neutral", _DOC,
+         "                self.__xmlparts[path] = part = cls(path, container)\n                container.set_part(path, part.pretty_serialize())",
+         "                part = cls(path, container)\n                self.__xmlparts[path] = part\n                container.set_part(path, part.pretty_serialize())"),
     Seed("pretty save indents the live tree", "fault", _XP,
          "        root = deepcopy(tree.getroot())\n        return pretty_indent(root)", "        root = tree.getroot()\n        return pretty_indent(root)", "R11"),
     Seed("save strips the body before writing", "fault", _DOC,
